@@ -117,6 +117,28 @@ class FA:
     def where(self, node=None) -> str:
         return A.loc(self.fi, node if node is not None else self.node)
 
+    def unconditional(self, node) -> bool:
+        """Is `node` evaluated whenever its enclosing statement is executed?  (Not inside a
+        conditional expression branch, a short-circuited operand, a comprehension element
+        or a lambda.)"""
+        n = node
+        while n is not None and not isinstance(n, ast.stmt):
+            p = self.pm.get(n)
+            if isinstance(p, ast.IfExp) and n is not p.test:
+                return False
+            if isinstance(p, ast.BoolOp) and p.values and n is not p.values[0]:
+                return False
+            if isinstance(p, (ast.ListComp, ast.SetComp, ast.GeneratorExp, ast.DictComp)):
+                if not (p.generators and n is p.generators[0] and False):
+                    # the first iterable is evaluated eagerly, everything else per element
+                    first_iter = p.generators[0].iter if p.generators else None
+                    if not (first_iter is not None and self.inside(node, first_iter)):
+                        return False
+            if isinstance(p, ast.Lambda):
+                return False
+            n = p
+        return True
+
     def inside(self, node, ancestor) -> bool:
         n = node
         while n is not None:
